@@ -91,6 +91,18 @@ PROPS = {
         assumptions=['wire codecs (gin, protobuf, base64) are exercised, not modelled'],
         trusted_base=['translate/gofacts (go/ast fact extractor)', 'the stub kernel of frontdiff'],
     ),
+    'C17': dict(
+        modules=['Resonate.Properties.C17'],
+        tie_filter=r'.*',
+        harness=[storediff('storediff-all', None, (25, 30), (800, 40), (300, 40))],
+        rule='the deciding artefact is static: both statement sets and both handler argument lists are re-translated from /repo on every run and proved '
+             'equal, definition by definition, to SqlSpec.defs .pg / .sqlite (110 tie theorems), whose store semantics are proved equal under DialectSafe; '
+             'storediff validates the shared model against the real sqlite store (random batches over all 27 kinds; non-trivial = affected/returned >= 1 row)',
+        assumptions=['no Postgres server exists in the sandbox: the Postgres statements are decided statically (translation + proof), their execution by a real server is not observed',
+                     'Postgres 32-bit columns (callbacks.timeout, tasks.ttl/counter, ::int cast) and SERIAL not being rolled back are outside the model (documented dialect differences)',
+                     'MVCC behaviour with Workers > 1 is outside the model'],
+        trusted_base=['sql2lean.py for the Postgres dialect ($n placeholders, ::casts, @>, DISTINCT ON)'],
+    ),
     'C16': dict(
         modules=['Resonate.Properties.C16'],
         tie_filter=r'.*',
